@@ -237,6 +237,7 @@ func runC11(c *Check, rng *rand.Rand) {
 	if env.P.Alive() {
 		c11witness(c, env, script, rng)
 	}
+	c11handshake(c, rng)
 	c.MinEvals = 100
 }
 
@@ -253,4 +254,64 @@ func c11witness(c *Check, env *Env, script *Script, rng *rand.Rand) {
 		c.Violate(Violation{Class: "witness-pipeline-disturbed", Shape: is.Class, Detail: "after a batch of backend errors a normal pipeline misbehaves: " + is.Detail})
 	}
 	c.Count("witness_pipelines_ok", 1)
+}
+
+// c11handshake: on a cluster with a password every fresh backend connection starts with
+// an AUTH handshake; the node answers the handshake and the first real reply - an error -
+// in one write. The error must still reach the client verbatim.
+func c11handshake(c *Check, rng *rand.Rand) {
+	env, err := NewEnv(EnvOpt{Masters: 3, Replicas: 1, Cfg: ProxyCfg{Password: "c11pw"}})
+	must(err, "start env")
+	defer env.Close()
+	env.Cl.HandshakeMode = "merge"
+	script := NewScript()
+	env.Cl.SetHandler(script.Handler)
+	cl, err := env.Dial()
+	must(err, "dial")
+	defer func() { cl.Close() }()
+	got := 0
+	for ep := 0; ep < c.Pick(12, 150) && env.P.Alive(); ep++ {
+		for _, n := range env.Cl.Nodes {
+			n.KillConns()
+		}
+		env.Barrier()
+		for k := 0; k < 3; k++ {
+			tok := newToken("hs")
+			rep := ErrReply(c11errors[(ep*3+k)%len(c11errors)])
+			script.Plan(tok).Act = func(*BReq) Action { return Action{Reply: rep} }
+			raw := Req("LPUSH", tok, "v")
+			if k == 1 {
+				raw = Req("GET", tok) // may go to a replica: AUTH + READONLY handshake
+			}
+			cl.Send(raw)
+			got++
+			c.Eval(1)
+			c.Distinct(fmt.Sprintf("handshake-merged/%d/%s", k, string(rep[:minInt(len(rep), 10)])))
+			if !cl.WaitReplies(got, 8*time.Second) {
+				// the freshly killed connection may have been picked with the request in flight (C15's subject)
+				cl.Close()
+				cl, err = env.Dial()
+				must(err, "redial")
+				got = 0
+				c.Count("handshake_episode_requests_lost_to_reconnect", 1)
+				continue
+			}
+			v := cl.Snapshot().Replies[got-1].Val
+			if v.Kind == '-' && (bytes.Contains(v.Str, []byte("proxy pool")) || bytes.Contains(v.Str, []byte("connection closed"))) {
+				c.Count("handshake_episode_pool_errors", 1)
+				continue
+			}
+			if !bytes.Equal(v.Raw, rep) {
+				c.Violate(Violation{Class: "error-not-verbatim", Shape: "first-reply-merged-with-handshake",
+					Detail:  fmt.Sprintf("backend error %s (written together with the handshake replies of a fresh connection) reached the client as %s", Q(rep), Q(v.Raw)),
+					Witness: map[string]interface{}{"request": Q(raw)}})
+			} else {
+				c.Count("single_key_errors_verbatim", 1)
+			}
+			script.Forget(tok)
+		}
+	}
+	if !env.P.Alive() {
+		c.Violate(Violation{Class: "proxy-died", Shape: "first-reply-merged-with-handshake", Detail: env.P.PanicLine(), Witness: env.P.OutputTail(2000)})
+	}
 }
